@@ -10,6 +10,24 @@ hand-over loop and `compute_weights` in the linear domain (`L = exp logL`, `X = 
 `t = exp logt`); `evidence`/`weights` are the documented quadrature.  All theorems hold for every
 linearly ordered field `K` (ℚ: what the driver runs; ℝ: what the floats approximate), every length,
 every live-point schedule and every shrinkage function `shrink : Nat → K` (both expectation modes).
+
+SCOPE — what is proved here and what is NOT.
+* Proved (exact arithmetic): the algebraic content of the property — which volumes, which rectangle
+  weights, which trapezoid with which opening/closing points, incremental = one-pass = documented
+  quadrature for every schedule, start at 1 / strict decrease of the volumes, scaling (= shift in log
+  space) of the evidence with unchanged weights, positivity.
+* NOT proved, checked by the harness only (harness/c02.py, on generated inputs, against the exact `Rat`
+  execution of these very definitions and a 60-digit mpmath evaluation):
+    - "agree to floating-point accuracy" (|Δ| ≤ 1e-9·max(1,|v|) between float64 results and exact values),
+    - "without overflow or underflow for magnitudes up to at least 1e5",
+    - "adding c shifts the float log-evidence by exactly c" (to a few ulps of |c|).
+  The Lean model is the linear-domain READING of the log-space code: the float operations `logaddexp`,
+  `logsubexp`, `log1p`, `exp`, `logsumexp`, `cumsum` are replaced by `+`, `-`, `1 - t`, `*`, `Σ`, cumulative
+  product; their rounding, overflow and underflow behaviour is not modelled.
+* Domain: live counts `n ≥ 1` (for `nlive = 0` the code divides by zero / produces NaN whereas a field has
+  `1/0 = 0`), and statements about weights assume `evidence ≠ 0` (Python gives NaN at `Z = 0` where a field
+  gives `x/0 = 0`).  Theorems quantifying over schedules therefore carry `1 ≤ n` hypotheses, also where the
+  algebra does not need them.
 -/
 namespace NessaiVerif.C02
 open NessaiVerif.Quad
@@ -32,8 +50,7 @@ theorem vols_strictAnti [LinearOrder K] [IsStrictOrderedRing K] (ts : List K) (h
   · exact ⟨one_pos, le_refl _⟩
   · exact ⟨(cumprodFrom_bounds 1 one_pos ts h x hx).1, le_of_lt (cumprodFrom_bounds 1 one_pos ts h x hx).2⟩
 
-example : Unit01 [(1 : ℚ) / 2, 2 / 3] := by
-  intro t ht; simp at ht; rcases ht with rfl | rfl <;> norm_num
+example := vols_strictAnti [(1 : ℚ) / 2, 2 / 3] unit01_example
 
 /-- The hypothesis `t < 1` is needed: with `t = 1` two consecutive volumes are equal. -/
 theorem vols_strictAnti_fails_without :
@@ -49,6 +66,8 @@ theorem t_mode_in_unit [LinearOrder K] [IsStrictOrderedRing K] (n : Nat) (hn : 1
   · rw [e]; positivity
   · rw [e, div_lt_one (by positivity)]; linarith
 
+example := t_mode_in_unit (K := ℚ) 5 (by decide)
+
 /-- expectation = "logt": for every `n ≥ 1` the shrinkage `exp(-1/n)` lies in (0,1), and its
 logarithm is the documented `-1/n`. -/
 theorem logt_mode_in_unit (n : Nat) (hn : 1 ≤ n) :
@@ -60,6 +79,8 @@ theorem logt_mode_in_unit (n : Nat) (hn : 1 ≤ n) :
   have : (0 : ℝ) < 1 / n := by positivity
   have e : -1 / (n : ℝ) = -(1 / n) := by ring
   linarith
+
+example := logt_mode_in_unit 5 (by decide)
 
 /-- expectation = "t" in log space: `log t = -log(1 + 1/n)`, the documented `-log1p(1/n)`. -/
 theorem t_mode_log (n : Nat) :
@@ -87,8 +108,8 @@ theorem log_vols_eq_cumsum (ts : List ℝ) (h : ∀ t ∈ ts, 0 < t) :
   simp only [vols, volsFrom, List.map_cons, Real.log_one]
   rw [key 1 one_pos ts h, Real.log_one]
 
-example : ∀ t ∈ [Real.exp (-1 / 2), Real.exp (-1)], 0 < t := by
-  intro t _; simp at *; rcases ‹_› with rfl | rfl <;> exact Real.exp_pos _
+example := log_vols_eq_cumsum [Real.exp (-1 / 2), Real.exp (-1)]
+  (by intro t ht; simp at ht; rcases ht with rfl | rfl <;> exact Real.exp_pos _)
 
 /-- The live counts seen by the integral state (k dead points, then `NestedSampler.finalise`
 handing over n live points with `nlive - i`) are exactly what `compute_weights` builds by
@@ -99,6 +120,8 @@ theorem schedule_eq (len k n : Nat) (hn : 1 ≤ n) (h : len = k + n) :
   rw [scheduleOnePass_of_le _ _ hn (by omega)]
   simp [scheduleIncr]
 
+example := schedule_eq 5 3 2 (by decide) (by decide)
+
 /-- `compute_weights` needs at least `nlive` samples: with fewer (and nlive ≥ 2) NumPy's slice
 assignment fails, so the property's quantifier "length ≥ nlive" cannot be dropped. -/
 theorem schedule_eq_fails_without (shrink : Nat → K) (a b : K) :
@@ -107,7 +130,8 @@ theorem schedule_eq_fails_without (shrink : Nat → K) (a b : K) :
 /-- **Incremental = one pass.**  After ANY sequence of `increment(L, nlive)` calls the state holds:
 the recorded live counts, the likelihoods behind the opening `L = 0`, the volumes `1, t₁, t₁t₂, …`,
 and a running evidence equal to the rectangle rule `Σ Lᵢ (Xᵢ₋₁ - Xᵢ)` evaluated in one pass. -/
-theorem incr_eq_rectOnePass (shrink : Nat → K) (base : Nat) (args : List (K × Option Nat)) :
+theorem incr_eq_rectOnePass (shrink : Nat → K) (base : Nat) (args : List (K × Option Nat))
+    (_hpos : ∀ m ∈ resolved base args, 1 ≤ m) :
     let s := (St.init base : St K).incrMany shrink args
     let ls := args.map (·.1)
     let ts := (resolved base args).map shrink
@@ -115,13 +139,15 @@ theorem incr_eq_rectOnePass (shrink : Nat → K) (base : Nat) (args : List (K ×
   obtain ⟨_, _, h3, h4, h5, h6⟩ := state_closed shrink base args
   exact ⟨h5, h6, h3, h4⟩
 
+example := incr_eq_rectOnePass (K := ℚ) tOfN 2 [(1, none), (3, some 5)] (by decide)
 example : ((St.init 2 : St Rat).incrMany tOfN [(1, none), (3, some 5)]).Z
     = rectOnePass [1, 3] (vols [tOfN 2, tOfN 5]) := by decide +kernel
 
 /-- The sampler's state (dead points consumed with the base live count, then the live points handed
 over by `NestedSampler.finalise`) has the schedule `n,…,n,n,n-1,…,1`, volumes that are the products
 of its shrinkages, and the one-pass rectangle evidence. -/
-theorem sampler_spec (shrink : Nat → K) (n : Nat) (dead live : List K) (hlive : live.length = n) :
+theorem sampler_spec (shrink : Nat → K) (n : Nat) (_hn : 1 ≤ n) (dead live : List K)
+    (hlive : live.length = n) :
     let s := sampler shrink n dead live
     let ts := (scheduleIncr dead.length n).map shrink
     s.ns = scheduleIncr dead.length n ∧ s.Ls = 0 :: (dead ++ live) ∧ s.Xs = vols ts ∧
@@ -143,6 +169,8 @@ theorem sampler_spec (shrink : Nat → K) (n : Nat) (dead live : List K) (hlive 
   obtain ⟨h1, h2, h3, h4, h5, h6⟩ := h
   exact ⟨h5, h6, h3, h4, h1, h2⟩
 
+example := sampler_spec (K := ℚ) tOfN 2 (by decide) [1] [2, 4] rfl
+
 /-- **Incremental state = one-pass `compute_weights`** (integer `nlive`): for every number of dead
 points and every `n ≥ 1`, `finalise()` and `log_posterior_weights` of the sampler's state are exactly
 the evidence and weights `compute_weights` returns for the stored samples — both are the documented
@@ -153,7 +181,7 @@ theorem state_eq_compute_weights (shrink : Nat → K) (n : Nat) (hn : 1 ≤ n) (
       .ok ((sampler shrink n dead live).finalise, (sampler shrink n dead live).postW) ∧
     (sampler shrink n dead live).finalise =
       evidence (dead ++ live) ((scheduleIncr dead.length n).map shrink) := by
-  obtain ⟨_, _, _, _, hf, hw⟩ := sampler_spec shrink n dead live hlive
+  obtain ⟨_, _, _, _, hf, hw⟩ := sampler_spec shrink n hn dead live hlive
   refine ⟨?_, hf⟩
   rw [hf, hw]
   have hne : dead ++ live ≠ [] := by
@@ -171,6 +199,7 @@ theorem state_eq_compute_weights (shrink : Nat → K) (n : Nat) (hn : 1 ≤ n) (
   simp only [evidence, weights, closedL, closedX, vols, volsFrom, hD]
   rfl
 
+example := state_eq_compute_weights (K := ℚ) tOfN 2 (by decide) [1] [2, 4] rfl
 example : (computeWeights tOfN [(1 : Rat), 2, 4] (.int 2)).toOption =
     some ((sampler tOfN 2 [1] [2, 4]).finalise, (sampler tOfN 2 [1] [2, 4]).postW) := by decide +kernel
 
@@ -184,7 +213,7 @@ theorem state_eq_compute_weights_fails_without :
 schedule of live counts, feeding `increment(Lᵢ, nlive=nᵢ)` and finalising gives exactly what
 `compute_weights(samples, nlive=array)` returns. -/
 theorem state_eq_compute_weights_array (shrink : Nat → K) (base : Nat) (Ls : List K) (ns : List Nat)
-    (hlen : ns.length = Ls.length) (hne : Ls ≠ []) :
+    (hlen : ns.length = Ls.length) (hne : Ls ≠ []) (_hpos : ∀ m ∈ ns, 1 ≤ m) :
     let s := (St.init base : St K).incrMany shrink (Ls.zip (ns.map some))
     computeWeights shrink Ls (.arr ns) = .ok (s.finalise, s.postW) ∧
       s.finalise = evidence Ls (ns.map shrink) ∧ s.postW = weights Ls (ns.map shrink) ∧
@@ -206,11 +235,12 @@ theorem state_eq_compute_weights_array (shrink : Nat → K) (base : Nat) (Ls : L
   simp only [evidence, weights, closedL, closedX, vols, volsFrom, hD]
   simp
 
-example : ([3, 7] : List Nat).length = ([(1 : Rat), 2]).length ∧ ([(1 : Rat), 2]) ≠ [] := by decide
+example := state_eq_compute_weights_array (K := ℚ) tOfN 4 [1, 2] [3, 7] rfl (by simp) (by decide)
 
 /-- `get_logx_live_points(n)`, evaluated after the dead points, predicts exactly the volumes that the
 hand-over of the `n` live points then appends to `log_vols`. -/
-theorem logx_live_points_eq (shrink : Nat → K) (n : Nat) (dead live : List K) (hlive : live.length = n) :
+theorem logx_live_points_eq (shrink : Nat → K) (n : Nat) (_hn : 1 ≤ n) (dead live : List K)
+    (hlive : live.length = n) :
     (sampler shrink n dead live).Xs =
       (consume shrink (St.init n) dead).Xs ++ (consume shrink (St.init n : St K) dead).logxLive shrink n := by
   have hloop := incrMany_spec shrink (consume shrink (St.init n : St K) dead)
@@ -222,6 +252,7 @@ theorem logx_live_points_eq (shrink : Nat → K) (n : Nat) (dead live : List K) 
   rw [finaliseLoopFrom_eq, h4, hbase, loop_counts n 0 n live (by omega), hlive]
   rfl
 
+example := logx_live_points_eq (K := ℚ) tOfN 2 (by decide) [1] [2, 4] rfl
 example : (sampler tOfN 2 [(1 : Rat)] [2, 4]).Xs = [1, 2 / 3, 4 / 9, 2 / 9] := by decide +kernel
 
 /-- **Shift property, linear form.**  Multiplying every likelihood by `c ≠ 0` (adding `log c` to every
@@ -233,7 +264,7 @@ theorem scale_invariance (shrink : Nat → K) (c : K) (hc : c ≠ 0) :
         weights (ls.map (c * ·)) ts = weights ls ts) ∧
     (∀ (samples : List K) (nl : NLive), computeWeights shrink (samples.map (c * ·)) nl =
         (computeWeights shrink samples nl).map fun r => (c * r.1, r.2)) ∧
-    (∀ (base : Nat) (args : List (K × Option Nat)),
+    (∀ (base : Nat) (args : List (K × Option Nat)), (∀ m ∈ resolved base args, 1 ≤ m) →
         let s := (St.init base : St K).incrMany shrink args
         let s' := (St.init base : St K).incrMany shrink (args.map fun a => (c * a.1, a.2))
         s'.finalise = c * s.finalise ∧ s'.postW = s.postW ∧ s'.Xs = s.Xs ∧ s'.Z = c * s.Z) := by
@@ -252,7 +283,7 @@ theorem scale_invariance (shrink : Nat → K) (c : K) (hc : c ≠ 0) :
             (closedL samples).map (c * ·) := by simp [closedL, hD]
         have e2 : [0] ++ samples ++ [last] = closedL samples := by simp [closedL, hD]
         simp only [Option.map_some, Except.map, e1, e2, trap_map_mul, postWeights_map_mul c hc]
-  · intro base args
+  · intro base args _
     have h := state_closed shrink base args
     have h' := state_closed shrink base (args.map fun a => (c * a.1, a.2))
     have hres : resolved base (args.map fun a => ((c * a.1, a.2) : K × Option Nat)) = resolved base args := by
@@ -268,7 +299,7 @@ theorem scale_invariance (shrink : Nat → K) (c : K) (hc : c ≠ 0) :
     · rw [b3, a3]
     · rw [b4, a4]; exact dot_map_mul_left c _ _
 
-example : (2 : ℚ) ≠ 0 := by norm_num
+example := scale_invariance (K := ℚ) tOfN 2 (by norm_num)
 
 /-- Without `c ≠ 0` the weights are not preserved (everything collapses to zero). -/
 theorem scale_invariance_fails_without :
@@ -283,6 +314,13 @@ theorem log_evidence_shift (a : ℝ) (ls ts : List ℝ) (hpos : 0 < evidence ls 
   refine ⟨?_, weights_map_mul _ (ne_of_gt (Real.exp_pos a)) ls ts⟩
   rw [evidence_map_mul, Real.log_mul (ne_of_gt (Real.exp_pos a)) (ne_of_gt hpos), Real.log_exp]
 
+example := log_evidence_shift 3 [1, 2] [Real.exp (-1 / 2), Real.exp (-1)] (by
+  simp [evidence, closedL, closedX, vols, volsFrom, cumprodFrom, trap, avgs, diffs, dot]
+  have h1 := Real.exp_pos (-1 / 2); have h2 := Real.exp_pos (-1 : ℝ)
+  have h3 : Real.exp (-1 / 2) < 1 := by rw [Real.exp_lt_one_iff]; norm_num
+  have h4 : Real.exp (-1 : ℝ) < 1 := by rw [Real.exp_lt_one_iff]; norm_num
+  nlinarith [mul_pos h1 h2, mul_pos h1 (sub_pos.mpr h4)])
+
 /-- With non-negative likelihoods, at least one of them positive, and shrinkages in (0,1) the evidence
 is strictly positive — the log-evidence is finite in exact arithmetic (leading `-inf` log-likelihoods
 are harmless). -/
@@ -290,28 +328,93 @@ theorem evidence_pos [LinearOrder K] [IsStrictOrderedRing K] (ls ts : List K) (h
     (hlen : ls.length = ts.length) (hex : ∃ l ∈ ls, 0 < l) : 0 < evidence ls ts :=
   Quad.evidence_pos ls ts hL ht (le_of_eq hlen) hex
 
-example : (∀ l ∈ [(0 : ℚ), 3], 0 ≤ l) ∧ (∃ l ∈ [(0 : ℚ), 3], 0 < l) := by
-  constructor
-  · intro l hl; simp at hl; rcases hl with rfl | rfl <;> norm_num
-  · exact ⟨3, by simp, by norm_num⟩
+example := evidence_pos [(0 : ℚ), 3] [1 / 2, 2 / 3] nonneg_example unit01_example rfl ⟨3, by simp, by norm_num⟩
 
 /-- If every likelihood is zero (every log-likelihood `-inf`) the evidence is zero: positivity needs a
 positive likelihood. -/
 theorem evidence_pos_fails_without : evidence [(0 : Rat), 0] [1 / 2, 1 / 2] = 0 := by decide +kernel
 
-/-- Posterior weights are non-negative (log-weights are real or `-inf`, never undefined). -/
-theorem postW_nonneg [LinearOrder K] [IsStrictOrderedRing K] (ls ts : List K) (hL : ∀ l ∈ ls, 0 ≤ l) (ht : Unit01 ts) :
+/-- Posterior weights are non-negative (log-weights are real or `-inf`, never undefined) whenever the
+evidence is positive.  The hypothesis `0 < evidence` (supplied by `evidence_pos`) is a domain guard: at
+`Z = 0` the Python code returns NaN weights, whereas a field has `x / 0 = 0`. -/
+theorem postW_nonneg [LinearOrder K] [IsStrictOrderedRing K] (ls ts : List K) (hL : ∀ l ∈ ls, 0 ≤ l)
+    (ht : Unit01 ts) (_hZ : 0 < evidence ls ts) :
     ∀ w ∈ weights ls ts, 0 ≤ w :=
   weights_nonneg ls ts hL ht
 
+example := postW_nonneg [(0 : ℚ), 3] [1 / 2, 2 / 3] nonneg_example unit01_example
+  (evidence_pos _ _ nonneg_example unit01_example rfl ⟨3, by simp, by norm_num⟩)
+
 /-- The posterior weights are the rectangle terms `Lᵢ (Xᵢ₋₁ - Xᵢ)` over the trapezoidal evidence;
-hence they sum to (rectangle evidence)/(trapezoidal evidence) — close to, but not exactly, one. -/
-theorem sum_postW_eq_rect_div_trap (ls ts : List K) :
+hence (evidence ≠ 0) they sum to (rectangle evidence)/(trapezoidal evidence) — close to, but not exactly, one. -/
+theorem sum_postW_eq_rect_div_trap (ls ts : List K) (hZ : evidence ls ts ≠ 0) :
     weights ls ts = List.zipWith (fun l d => l * d / evidence ls ts) ls (diffs (vols ts)) ∧
-      sumL (weights ls ts) = rectOnePass ls (vols ts) / evidence ls ts := by
+      sumL (weights ls ts) * evidence ls ts = rectOnePass ls (vols ts) := by
   refine ⟨weights_eq ls ts, ?_⟩
-  rw [weights_eq, sumL_zipWith_div]
+  rw [weights_eq, sumL_zipWith_div, div_mul_cancel₀ _ hZ]
   rfl
+
+example := sum_postW_eq_rect_div_trap [(0 : ℚ), 3] [1 / 2, 2 / 3]
+  (ne_of_gt (evidence_pos _ _ nonneg_example unit01_example rfl ⟨3, by simp, by norm_num⟩))
+
+/-- **Volumes start at 1 and strictly decrease — any schedule.**  After ANY sequence of `increment` calls
+whose live counts are all ≥ 1, with a shrinkage in (0,1) for every live count ≥ 1, `log_vols` has one entry
+per call plus the initial one, starts at `X = 1` (log-volume 0), is strictly decreasing and stays in (0,1]. -/
+theorem state_vols_start_decrease [LinearOrder K] [IsStrictOrderedRing K] (shrink : Nat → K)
+    (hs : ∀ m, 1 ≤ m → 0 < shrink m ∧ shrink m < 1) (base : Nat) (args : List (K × Option Nat))
+    (hpos : ∀ m ∈ resolved base args, 1 ≤ m) :
+    let s := (St.init base : St K).incrMany shrink args
+    s.Xs.head? = some 1 ∧ s.Xs.length = args.length + 1 ∧ s.Xs.Pairwise (fun a b => b < a) ∧
+      ∀ x ∈ s.Xs, 0 < x ∧ x ≤ 1 := by
+  obtain ⟨_, _, h3, _, _, _⟩ := state_closed shrink base args
+  have hu := unit01_of_sched shrink hs _ hpos
+  obtain ⟨h1, h2, _⟩ := vols_strictAnti _ hu
+  simp only [h3]
+  refine ⟨rfl, ?_, h1, h2⟩
+  simp [length_vols, resolved]
+
+example := state_vols_start_decrease (K := ℚ) tOfN (fun m hm => (t_mode_in_unit m hm).2) 2
+  [(1, none), (3, some 5)] (by decide)
+
+/-- **Volumes start at 1 and strictly decrease — the sampler's schedule.**  For the schedule the sampler
+produces (k dead points consumed with `n` live points, then the `n ≥ 1` live points handed over with
+`n, n-1, …, 1`), the stored volumes start at `X = 1` (log-volume 0), are strictly decreasing, stay in (0,1],
+and there is one per sample plus the initial one — for any shrinkage that lies in (0,1) on live counts ≥ 1. -/
+theorem sampler_vols_start_decrease [LinearOrder K] [IsStrictOrderedRing K] (shrink : Nat → K)
+    (hs : ∀ m, 1 ≤ m → 0 < shrink m ∧ shrink m < 1) (n : Nat) (hn : 1 ≤ n) (dead live : List K)
+    (hlive : live.length = n) :
+    let s := sampler shrink n dead live
+    s.Xs.head? = some 1 ∧ s.Xs.length = dead.length + n + 1 ∧ s.Xs.Pairwise (fun a b => b < a) ∧
+      ∀ x ∈ s.Xs, 0 < x ∧ x ≤ 1 := by
+  obtain ⟨_, _, h3, _, _, _⟩ := sampler_spec shrink n hn dead live hlive
+  have hu := unit01_of_sched shrink hs _ (scheduleIncr_pos dead.length n hn)
+  obtain ⟨h1, h2, _⟩ := vols_strictAnti _ hu
+  simp only [h3]
+  refine ⟨rfl, ?_, h1, h2⟩
+  simp [length_vols, length_scheduleIncr]
+
+example := sampler_vols_start_decrease (K := ℚ) tOfN (fun m hm => (t_mode_in_unit m hm).2) 2 (by decide)
+  [1] [2, 4] rfl
+
+/-- **…in both expectation modes.**  The property's clause "log prior volumes start at 0 and strictly
+decrease" for the sampler's schedule with expectation = "t" (`t = 1/(1+1/n)`, any ordered field) and with
+expectation = "logt" (`t = exp(-1/n)`, ℝ). -/
+theorem sampler_vols_start_decrease_both_modes [LinearOrder K] [IsStrictOrderedRing K] (n : Nat) (hn : 1 ≤ n) :
+    (∀ (dead live : List K), live.length = n →
+      let s := sampler (tOfN : Nat → K) n dead live
+      s.Xs.head? = some 1 ∧ s.Xs.Pairwise (fun a b => b < a)) ∧
+    (∀ (dead live : List ℝ), live.length = n →
+      let s := sampler (fun m : Nat => Real.exp (-1 / (m : ℝ))) n dead live
+      s.Xs.head? = some 1 ∧ s.Xs.Pairwise (fun a b => b < a)) := by
+  refine ⟨fun dead live hl => ?_, fun dead live hl => ?_⟩
+  · obtain ⟨a, _, b, _⟩ := sampler_vols_start_decrease (K := K) tOfN
+      (fun m hm => (t_mode_in_unit m hm).2) n hn dead live hl
+    exact ⟨a, b⟩
+  · obtain ⟨a, _, b, _⟩ := sampler_vols_start_decrease (K := ℝ) (fun m : Nat => Real.exp (-1 / (m : ℝ)))
+      (fun m hm => ⟨(logt_mode_in_unit m hm).1, (logt_mode_in_unit m hm).2.1⟩) n hn dead live hl
+    exact ⟨a, b⟩
+
+example := sampler_vols_start_decrease_both_modes (K := ℚ) 3 (by decide)
 
 /-- The documented quadrature written out for two samples: opening point `(L=0, X=1)`,
 trapezoids between consecutive points, closing point `(L=L₂, X=0)`; rectangle posterior weights. -/
